@@ -445,6 +445,7 @@ func mutate(r *rand.Rand, doc *generator.Doc, cfg *generator.Config, kind int) s
 		}
 		return out
 	}
+	explicit := kind >= 0 // one of the cycled kinds: the variant that every run must cover
 	if kind < 0 {
 		kind = r.Intn(14)
 	}
@@ -511,7 +512,33 @@ func mutate(r *rand.Rand, doc *generator.Doc, cfg *generator.Config, kind int) s
 		return "rename field " + old
 	case 5: // change the type mapping of one type
 		t := cfg.Types[r.Intn(len(cfg.Types))]
-		t.CastType = []string{"String", "Int", "Float", "Bool", "Raw", "Time"}[r.Intn(6)]
+		nw := []string{"String", "Int", "Float", "Bool", "Raw", "Time"}[r.Intn(6)]
+		if explicit {
+			// a type that fields of the schema really use, given another Go type than it has
+			used := map[string]bool{}
+			for _, f := range doc.Fields {
+				used[f.Type] = true
+			}
+			var cands []*generator.Type
+			for _, c := range cfg.Types {
+				if used[c.Name] {
+					cands = append(cands, c)
+				}
+			}
+			if len(cands) > 0 {
+				t = cands[r.Intn(len(cands))]
+			}
+			for nw == t.CastType {
+				nw = []string{"String", "Int", "Float", "Bool", "Raw", "Time"}[r.Intn(6)]
+			}
+		}
+		if explicit || r.Intn(2) == 0 {
+			// an overriding entry appended to the mapping (what a user does with the shipped types.xml): the last entry
+			// of a name is the one that counts
+			cfg.Types = append(cfg.Types, &generator.Type{XMLName: t.XMLName, Name: t.Name, CastType: nw})
+			return "retype " + t.Name + " as " + nw + " (appended entry)"
+		}
+		t.CastType = nw
 		return "retype " + t.Name + " as " + t.CastType
 	case 6: // duplicate field number
 		a, b := doc.Fields[r.Intn(len(doc.Fields))], doc.Fields[r.Intn(len(doc.Fields))]
